@@ -9,7 +9,10 @@ paths.  Oracle: the property's statement evaluated on the implementation's resul
 brute-force enumeration of the declaratively valid sub-paths (written from the definition,
 not from the scan), time-reversal invariance, positivity, the doubling rule, the shape of
 the weight vector and the interval law of the segment choice (also on paths built to hold
-several valid sub-paths of unequal lengths, over a fine grid of random numbers).
+several valid sub-paths of unequal lengths, over a fine grid of random numbers), the seed under
+length limits (tis_set.maxlength below / at / above every valid sub-path, path.maxlen small /
+large / None: the seed is exactly one valid sub-path with both end points) and the [0-] weight
+vector for lambda_minus_one absent / negative / 0.0 / positive x every [0-] path type.
 
 Every call into the implementation goes through `call` / `Impl`: an exception, None, a value
 of the wrong shape, a sub-path that is not one of the valid sub-paths ... is an ANSWER of the
@@ -46,7 +49,20 @@ CHUNK = 250000
 # them, all frames strictly between inside, and not (right, right).
 
 
+_LAST_SEGMENTS = [None, None]       # the cases of one path follow each other: remember the last enumeration
+
+
 def oracle_segments(o, left, right):
+    key = (o, left, right) if isinstance(o, tuple) else None
+    if key is not None and _LAST_SEGMENTS[0] == key:
+        return list(_LAST_SEGMENTS[1])
+    out = _oracle_segments(o, left, right)
+    if key is not None:
+        _LAST_SEGMENTS[:] = [key, tuple(out)]
+    return out
+
+
+def _oracle_segments(o, left, right):
     n = len(o)
     out = []
     for s in range(n):
